@@ -456,6 +456,17 @@ func c15Population(c *Ctx, r *rand.Rand, genomes []*genetics.Genome, snaps []*Sn
 	for i := 0; i < n; i++ {
 		pop.Organisms[i].Genotype = genomes[i]
 	}
+	if r.Intn(4) == 0 {
+		// a population put together from several sources (the best of several runs, species that number their offspring
+		// independently): genome ids repeat; every organism is written and comes back all the same
+		m := pick(r, 1, 2, 5)
+		for i := 0; i < n; i++ {
+			oldG, oldS, g, sn := genomes[i].Id, snaps[i].Id, genomes[i], snaps[i]
+			defer func() { g.Id, sn.Id = oldG, oldS }()
+			g.Id, sn.Id = oldG%m, oldG%m
+		}
+		c.Count("roundtrip.population_with_repeated_genome_ids", 1)
+	}
 	c.Eval(1)
 	c.Count("roundtrip.population", 1)
 	var buf bytes.Buffer
